@@ -165,7 +165,7 @@ pub fn s_mk(cx: &mut Ctx) {
     }
     cx.end();
     // random functions over 4..6 variables bottom-up, tiny buckets
-    let cases = if cx.thorough { 60 } else { 12 };
+    let cases = if cx.thorough { 400 } else { 12 };
     for _ in 0..cases {
         let n = 4 + cx.rng.below(3) as u32;
         let bb = cx.rng.below(4);
@@ -245,7 +245,7 @@ pub fn s_ite3(cx: &mut Ctx) {
         cx.end();
     }
     // larger random functions, tiny caches, collections in between
-    let cases = if cx.thorough { 40 } else { 8 };
+    let cases = if cx.thorough { 300 } else { 8 };
     for _ in 0..cases {
         let n = 4 + cx.rng.below(3) as u32;
         let cb = cx.rng.below(4);
@@ -315,7 +315,7 @@ pub fn s_conn(cx: &mut Ctx) {
     }
     cx.end();
     // folds and expressions over 4..5 variables
-    let cases = if cx.thorough { 60 } else { 15 };
+    let cases = if cx.thorough { 400 } else { 15 };
     for _ in 0..cases {
         let n = 4 + cx.rng.below(2) as u32;
         cx_begin!(cx, n, format!("new 12 {} {}", cx.rng.below(5), cx.rng.below(5)), 32);
@@ -351,7 +351,7 @@ pub fn s_conn(cx: &mut Ctx) {
 
 /// random histories mixing every operation with collections — C01, C04, C05, C06, C07, C17 …
 pub fn s_hist(cx: &mut Ctx) {
-    let cases = if cx.thorough { 300 } else { 40 };
+    let cases = if cx.thorough { 2500 } else { 40 };
     for ci in 0..cases {
         let n = 3 + cx.rng.below(4) as u32;
         let sb = 5 + cx.rng.below(6);
@@ -547,7 +547,7 @@ pub fn s_gc_chain(cx: &mut Ctx) {
 /// C06: build / discard / collect soak in tables small enough to be exhausted; histories continue
 /// after the 'Storage is full' panic
 pub fn s_soak(cx: &mut Ctx) {
-    let cases = if cx.thorough { 40 } else { 10 };
+    let cases = if cx.thorough { 300 } else { 10 };
     for _ in 0..cases {
         let sb = 3 + cx.rng.below(4);
         let n = 3 + cx.rng.below(4) as u32;
@@ -604,7 +604,7 @@ pub fn s_soak(cx: &mut Ctx) {
 
 /// C07: the same operations before and after a flush return identical handles, in 1..4-slot caches
 pub fn s_memo(cx: &mut Ctx) {
-    let cases = if cx.thorough { 120 } else { 30 };
+    let cases = if cx.thorough { 1000 } else { 30 };
     for _ in 0..cases {
         let n = 3 + cx.rng.below(3) as u32;
         let cb = cx.rng.below(3);
@@ -688,7 +688,7 @@ pub fn s_subst(cx: &mut Ctx) {
     }
     cx.end();
     // functions over 4..6 variables
-    let cases = if cx.thorough { 40 } else { 8 };
+    let cases = if cx.thorough { 300 } else { 8 };
     for _ in 0..cases {
         let n = 4 + cx.rng.below(3) as u32;
         cx_begin!(cx, n, format!("new 12 {} 4", cx.rng.below(5)), 32);
@@ -734,7 +734,7 @@ pub fn s_compose(cx: &mut Ctx) {
         }
     }
     cx.end();
-    let cases = if cx.thorough { 40 } else { 8 };
+    let cases = if cx.thorough { 300 } else { 8 };
     for _ in 0..cases {
         let n = 4 + cx.rng.below(3) as u32;
         cx_begin!(cx, n, format!("new 12 {} {}", cx.rng.below(5), cx.rng.below(4)), 32);
@@ -802,7 +802,7 @@ pub fn s_cr(cx: &mut Ctx, which: &str) {
         cx.end();
     }
     // 4..6 variables
-    let cases = if cx.thorough { 40 } else { 8 };
+    let cases = if cx.thorough { 400 } else { 8 };
     for _ in 0..cases {
         let n = 4 + cx.rng.below(3) as u32;
         cx_begin!(cx, n, format!("new 12 {} {}", cx.rng.below(5), cx.rng.below(4)), 32);
@@ -891,7 +891,7 @@ pub fn s_count(cx: &mut Ctx) {
         cx.end();
     }
     // random functions over 5..6 variables (oracle) and 10..14 (correspondence only)
-    let cases = if cx.thorough { 60 } else { 12 };
+    let cases = if cx.thorough { 400 } else { 12 };
     for i in 0..cases {
         let big = i % 3 == 2;
         let n = if big { 10 + cx.rng.below(5) as u32 } else { 5 + cx.rng.below(2) as u32 };
@@ -949,7 +949,7 @@ pub fn s_export(cx: &mut Ctx) {
         }
     }
     cx.end();
-    let cases = if cx.thorough { 40 } else { 10 };
+    let cases = if cx.thorough { 300 } else { 10 };
     for _ in 0..cases {
         let n = 4 + cx.rng.below(3) as u32;
         cx_begin!(cx, n, format!("new 12 {} 3", cx.rng.below(5)), 0);
@@ -989,7 +989,7 @@ fn storage_digest(cx: &Ctx) -> u64 {
 
 /// C17: Table<T> driven directly with adversarial hashes (all equal, two classes, identity)
 pub fn s_table(cx: &mut Ctx) {
-    let cases = if cx.thorough { 200 } else { 40 };
+    let cases = if cx.thorough { 1500 } else { 40 };
     for i in 0..cases {
         cx.ex.begin_case();
         let bits = 1 + cx.rng.below(6);
@@ -1016,7 +1016,7 @@ pub fn s_table(cx: &mut Ctx) {
 
 /// C18: Cache<K,V> driven directly, key universes with forced collisions
 pub fn s_cache(cx: &mut Ctx) {
-    let cases = if cx.thorough { 300 } else { 60 };
+    let cases = if cx.thorough { 3000 } else { 60 };
     for _ in 0..cases {
         cx.ex.begin_case();
         let bits = cx.rng.below(5);
@@ -1057,7 +1057,7 @@ pub fn s_cache(cx: &mut Ctx) {
 
 /// C19: RawTable histories over small key universes with adversarial hashes
 pub fn s_raw(cx: &mut Ctx, dbg: bool) {
-    let cases = if cx.thorough { 400 } else { 70 };
+    let cases = if cx.thorough { 4000 } else { 70 };
     for i in 0..cases {
         cx.ex.begin_case();
         let kind = i % 7;
@@ -1185,7 +1185,7 @@ pub fn s_eda(cx: &mut Ctx) {
             cx_op!(cx, format!("eda.boxed n {}", t));
         }
     }
-    let m = if cx.thorough { 4000 } else { 600 };
+    let m = if cx.thorough { 40000 } else { 600 };
     for i in 0..m {
         let b = 2 + cx.rng.below(if i % 10 == 0 { 400 } else { 40 }) as u32;
         let t = rand_tree(cx, b, i % 2 == 0);
@@ -1195,7 +1195,7 @@ pub fn s_eda(cx: &mut Ctx) {
     cx.ex.begin_case();
     let b30 = 1u64 << 30;
     let mut idx: Vec<u64> = vec![0, 1, 2, 3, b30 - 3, b30 - 2, b30 - 1, b30, b30 + 1, (1 << 31) - 2, (1 << 31) - 1, 1 << 31, u32::MAX as u64 - 1, u32::MAX as u64];
-    for _ in 0..(if cx.thorough { 4000 } else { 600 }) {
+    for _ in 0..(if cx.thorough { 40000 } else { 600 }) {
         idx.push(cx.rng.below(1 << 32));
         idx.push(cx.rng.below(b30));
     }
@@ -1214,7 +1214,7 @@ pub fn s_eda(cx: &mut Ctx) {
 /// a stale cache entry or a mis-linked chain shows up (C02, C05, C07, C10, C11) — few buckets, so that
 /// the dying result sits behind a live node in its chain
 pub fn s_gc_reuse(cx: &mut Ctx) {
-    let cases = if cx.thorough { 400 } else { 80 };
+    let cases = if cx.thorough { 3000 } else { 80 };
     for ci in 0..cases {
         let n = 3 + cx.rng.below(3) as u32;
         let bb = cx.rng.below(3);
@@ -1268,6 +1268,104 @@ pub fn s_gc_reuse(cx: &mut Ctx) {
     }
 }
 
+/// histories over 8–40 variables in managers created by `Bdd::new(bits)` itself (default bucket and cache
+/// sizes, up to 2^20 cells); oracles: sampled evaluation on 64 assignments, signatures across collections,
+/// structural scans every 64 operations
+pub fn s_big(cx: &mut Ctx) {
+    let cases = if cx.thorough { 120 } else { 8 };
+    for ci in 0..cases {
+        let n = 8 + cx.rng.below(33) as u32;
+        let sb = if ci % 4 == 3 { 20 } else { 10 + cx.rng.below(7) };
+        cx.ex.begin_case();
+        cx.ex.tt = None;
+        cx.ex.scan_every = 64;
+        cx_op!(cx, format!("newdefault {}", sb));
+        let mut hs = vec![0usize, 1];
+        for v in 1..=n {
+            hs.push(cx_op!(cx, format!("var {}", v)));
+        }
+        let len = if cx.thorough { 1200 } else { 400 };
+        for step in 0..len {
+            hs.retain(|&i| cx.ex.live[i]);
+            let pick = |cx: &mut Ctx, hs: &Vec<usize>| -> usize {
+                if cx.rng.chance(2, 3) && hs.len() > 12 {
+                    hs[hs.len() - 1 - cx.rng.below(12) as usize]
+                } else {
+                    *cx.rng.pick(hs)
+                }
+            };
+            let (a, b, c) = (pick(cx, &hs), pick(cx, &hs), pick(cx, &hs));
+            let v = 1 + cx.rng.below(n as u64 + 1);
+            let r = match cx.rng.below(30) {
+                0..=7 => Some(cx_op!(cx, format!("ite {} {} {}", a, b, c))),
+                8..=13 => {
+                    let op = *cx.rng.pick(&["and", "or", "xor", "eq", "imply"]);
+                    Some(cx_op!(cx, format!("{} {} {}", op, a, b)))
+                }
+                14 => Some(cx_op!(cx, format!("subst {} {} {}", a, v, cx.rng.below(2)))),
+                15 => {
+                    let lits = asc_lits(cx, n);
+                    Some(cx_op!(cx, format!("substm {} {}", a, lits)))
+                }
+                16 => {
+                    let lits = asc_lits(cx, n);
+                    Some(cx_op!(cx, format!("cofcube {} {}", a, lits)))
+                }
+                17 | 18 => Some(cx_op!(cx, format!("compose {} {} {}", a, v, b))),
+                19 => Some(cx_op!(cx, format!("constrain {} {}", a, b))),
+                20 => Some(cx_op!(cx, format!("restrict {} {}", a, b))),
+                21 => {
+                    cx_op!(cx, format!("itec {} {} {}", a, b, c));
+                    cx_op!(cx, format!("implies {} {}", a, b));
+                    None
+                }
+                22 => {
+                    cx_op!(cx, format!("satcount {} {}", a, n as u64 + cx.rng.below(40)));
+                    cx_op!(cx, format!("onesat {}", a));
+                    None
+                }
+                23 => {
+                    cx_op!(cx, format!("size {}", a));
+                    None
+                }
+                24 => {
+                    let lits = any_lits(cx, n.min(12));
+                    let op = if cx.rng.chance(1, 2) { "cube" } else { "clause" };
+                    Some(cx_op!(cx, format!("{} {}", op, lits)))
+                }
+                25 => {
+                    let e = gen_expr(cx, &[a, b, c], 3);
+                    Some(cx_op!(cx, format!("expr {}", e)))
+                }
+                26 => Some(cx_op!(cx, format!("not {}", a))),
+                _ => {
+                    // keep a few handles and the variables, collect the rest
+                    let mut roots: Vec<usize> = hs.iter().copied().filter(|_| cx.rng.chance(1, 4)).collect();
+                    roots.extend(2..(2 + n as usize).min(hs.len()));
+                    let s: Vec<String> = roots.iter().map(|r| r.to_string()).collect();
+                    cx_op!(cx, format!("gc {}", s.join(" ")));
+                    cx.op("digest".into());
+                    None
+                }
+            };
+            if let Some(r) = r {
+                // do not let diagrams explode: keep results of moderate size only
+                if cx.ex.live[r] && cx.rng.chance(1, 2) {
+                    hs.push(r);
+                }
+            }
+            if step % 32 == 0 {
+                cx.op("digest".into());
+            }
+        }
+        cx.op("digest".into());
+        if cx.samples.len() < 3 {
+            let start = *cx.ex.case_starts.last().unwrap();
+            cx.samples.push(cx.ex.lines[start..].iter().take(12).cloned().collect());
+        }
+    }
+}
+
 pub fn run_suite(name: &str, cx: &mut Ctx) -> bool {
     match name {
         "mk" => s_mk(cx),
@@ -1276,6 +1374,7 @@ pub fn run_suite(name: &str, cx: &mut Ctx) -> bool {
         "hist" => s_hist(cx),
         "gc_chain" => s_gc_chain(cx),
         "gc_reuse" => s_gc_reuse(cx),
+        "big" => s_big(cx),
         "soak" => s_soak(cx),
         "memo" => s_memo(cx),
         "subst" => s_subst(cx),
@@ -1295,5 +1394,5 @@ pub fn run_suite(name: &str, cx: &mut Ctx) -> bool {
 }
 
 pub const ALL_SUITES: &[&str] = &[
-    "mk", "ite3", "conn", "hist", "gc_chain", "gc_reuse", "soak", "memo", "subst", "compose", "constrain", "restrict", "itec", "count", "export", "table", "cache", "raw", "eda",
+    "mk", "ite3", "conn", "hist", "gc_chain", "gc_reuse", "big", "soak", "memo", "subst", "compose", "constrain", "restrict", "itec", "count", "export", "table", "cache", "raw", "eda",
 ];
